@@ -428,7 +428,8 @@ async fn gen_case(r: &mut Rng, run: &mut Run, style: u64, nticks: usize) -> std:
         g.ops.join(";"), g.obs.join(";"));
     let kind: &'static str = match style { 0 => "steady", 1 => "mixed", 2 => "hostile", 3 => "silent", 4 => "tinyclock", _ => "rttdrop" };
     run.push(kind, g.samples > 0 && g.ka_frames > 0, text);
-    // let aborted reader tasks finish
+    // stop the reader tasks housekeeping spawned on reconnects (they own the sockets)
+    for (_, h) in g.sim.readers.drain() { h.handle.abort(); }
     drop(g);
     tokio::task::yield_now().await;
     Ok(())
@@ -468,6 +469,7 @@ async fn fixed_case(run: &mut Run) -> std::io::Result<()> {
     let text = format!("CA {} {} [{}] [{}]", crate::common::zlist(ids.iter().map(|&x| x as i128)), t0,
         g.ops.join(";"), g.obs.join(";"));
     run.push("fixed", true, text);
+    for (_, h) in g.sim.readers.drain() { h.handle.abort(); }
     Ok(())
 }
 
@@ -482,7 +484,7 @@ pub fn run(seed: u64, tier: &str, out: &Path, extra: &[(String, String)]) -> std
     let mut rng = Rng::new(seed ^ 0xC14C_14C1_4C14);
     let mut scale: f64 = 1.0;
     for (k, v) in extra { if k == "scale" { scale = v.parse().unwrap_or(1.0); } }
-    let ncases = ((if run.thorough() { 900.0 } else { 100.0 }) * scale) as usize;
+    let ncases = ((if run.thorough() { 600.0 } else { 100.0 }) * scale) as usize;
     let rt = tokio::runtime::Builder::new_current_thread().enable_all().build()?;
     let res: std::io::Result<()> = rt.block_on(async {
         fixed_case(&mut run).await?;
